@@ -6,16 +6,19 @@ From Coq Require Import List NArith ZArith Bool String Ascii DecimalString.
 Import ListNotations.
 Local Open Scope string_scope.
 
-Fixpoint split_acc (sep : ascii) (s : string) (cur : string) (acc : list string) : list string :=
+Definition rev_string (cur : list ascii) : string := string_of_list_ascii (rev cur).
+
+(* cur holds the characters of the current field in reverse *)
+Fixpoint split_acc (sep : ascii) (s : string) (cur : list ascii) (acc : list string) : list string :=
   match s with
-  | EmptyString => rev (cur :: acc)
+  | EmptyString => rev (rev_string cur :: acc)
   | String c r =>
-      if Ascii.eqb c sep then split_acc sep r EmptyString (cur :: acc)
-      else split_acc sep r (cur ++ String c EmptyString) acc
+      if Ascii.eqb c sep then split_acc sep r [] (rev_string cur :: acc)
+      else split_acc sep r (c :: cur) acc
   end.
 
 (* split on a separator, keeping empty fields *)
-Definition split (sep : ascii) (s : string) : list string := split_acc sep s EmptyString [].
+Definition split (sep : ascii) (s : string) : list string := split_acc sep s [] [].
 
 (* split on spaces, dropping empty words *)
 Definition words (s : string) : list string :=
